@@ -1,6 +1,7 @@
 package main
 
 import (
+	"strings"
 	"verif/harness"
 	"verif/model"
 	"verif/univ"
@@ -74,6 +75,16 @@ func checkC02(r *harness.Run) harness.Coverage {
 	st.add(conform(r, pumped, pumpDocs, conformOpts{}))
 	r.Note("pumped_expressions", len(pumped))
 	r.Note("pumped_sizes", ks)
+	// slice projections whose bounds are written out although they equal a default of the OTHER direction (an explicit
+	// start 0 with a negative step is element 0 only, not "from the end"), and whole-range slices, each with a right-hand side
+	var explicitSlices []exprCase
+	for _, sl := range []string{"[0::-1]", "[0:-10:-1]", "[0::-2]", "[0:]", "[:0]", "[0:0:1]", "[::1]", "[0::1]", "[-1::1]", "[-1::-1]", "[:0:-1]", "[0:0:-1]", "[1::-1]", "[:-1:1]", "[0:99]", "[-99:]", "[99::-1]", "[:-99:-1]"} {
+		for _, form := range []string{"a%s", "a%s.a", "%s", "%s.a", "a%s | [0]", "a%s[0]", "a[*]%s", "[a%s, a[0]]", "a%s.b | length(@)", "length(a%s)", "a%s[]"} {
+			explicitSlices = append(explicitSlices, exprFromText(strings.Replace(form, "%s", sl, -1)))
+		}
+	}
+	st.add(conform(r, explicitSlices, chainDocs, conformOpts{}))
+	r.Note("explicit_bound_slice_projections", len(explicitSlices))
 	r.Note("piped_projection_pairs", len(piped))
 	r.Note("postfix_chains", len(chains))
 	r.Note("postfix_chain_weight", chainW)
